@@ -23,8 +23,6 @@ proof fn lemma_le16_value(x: u16)
 impl DataPacketHeader {
 //@fn src/packet.rs DataPacketHeader write serves=C02,C01,C16 ret=r
 //@rw writer: &mut dyn Write ==> writer: &mut PagedWriter
-//@rw length\.to_le_bytes\(\) ==> shim_u16_to_le_bytes(length)
-//@rw self\.bytestream_count\.to_le_bytes\(\) ==> shim_u16_to_le_bytes(self.bytestream_count)
 //@sig
         requires old(writer).wf(), 1 <= self.packet_length <= 65536,
         ensures match r {
@@ -39,7 +37,6 @@ impl DataPacketHeader {
 impl CompressedVectorSectionHeader {
 //@fn src/cv_section.rs CompressedVectorSectionHeader write serves=C02,C01,C16 ret=r
 //@rw writer: &mut dyn Write ==> writer: &mut PagedWriter
-//@rw self\.(section_length|data_offset|index_offset)\.to_le_bytes\(\) ==> shim_u64_to_le_bytes(self.\1)
 //@sig
         requires old(writer).wf(),
         ensures match r {
@@ -65,8 +62,6 @@ impl Header {
     }
 //@fn src/header.rs Header write serves=C02,C15,C16 ret=r
 //@rw writer: &mut dyn Write ==> writer: &mut PagedWriter
-//@rw self\.(major|minor)\.to_le_bytes\(\) ==> shim_u32_to_le_bytes(self.\1)
-//@rw self\.(phys_length|phys_xml_offset|xml_length|page_size)\.to_le_bytes\(\) ==> shim_u64_to_le_bytes(self.\1)
 //@sig
         requires old(writer).wf(),
         ensures match r {
@@ -117,8 +112,6 @@ impl Header {
 //@fn src/header.rs Header read serves=C02,C08,C16,C17 ret=r
 //@rw reader: &mut dyn Read ==> reader: &mut Dev
 //@rw data\[0\.\.8\]\.try_into\(\)\.internal_err\(WRONG_OFFSET\)\? ==> shim_arr8(&data, 0, 8)?
-//@rw u32::from_le_bytes\(data\[(\d+)\.\.(\d+)\]\.try_into\(\)\.internal_err\(WRONG_OFFSET\)\?\) ==> shim_le_u32(&data, \1, \2)?
-//@rw u64::from_le_bytes\(\s*data\[(\d+)\.\.(\d+)\]\.try_into\(\)\.internal_err\(WRONG_OFFSET\)\?,?\s*\) ==> shim_le_u64(&data, \1, \2)?
 //@rw &header\.signature != SIGNATURE ==> !bytes_eq8(&header.signature, SIGNATURE)
 //@rw != PAGE_SIZE ==> != HEADER_PAGE_SIZE
 //@sig
